@@ -359,10 +359,10 @@ def classify (name : String) : CallKind :=
   if ["raise", "validate_slurm_executor", "_validate_complete_inputs", "validate_consistent_axes", "_validate_fixed_indices",
       "_validate_storage_names", "_maybe_run_folder", "_compare_to_previous_run_info", "_check_inputs", "map_shapes"].contains name
   then .validation
-  else if ["cls", "run_info.init_store", "init_tracker"].contains name then .effect
+  else if ["run_info._dump_all", "run_info.init_store", "init_tracker"].contains name then .effect
   else if name == "_cleanup_run_folder" then .cleanup
   else if ["pipeline._flatten_scopes", "pipeline.subpipeline", "set", "isinstance", "executor.copy", "pipeline.mapspecs", "OrderedDict",
-           "_cannot_be_parallelized", "_check_parallel", "_construct_internal_shapes"].contains name then .neutral
+           "_cannot_be_parallelized", "_check_parallel", "_construct_internal_shapes", "cls"].contains name then .neutral
   else .unknown
 
 /-- validations every request must pass before the first write -/
@@ -379,12 +379,12 @@ def validationsPrecedeEffects (calls : List String) : Bool :=
   calls.all (fun c => classify c != .unknown) &&
   requiredValidations.all (fun v => (beforeFirstEffect calls).contains v) &&
   (fromFirstEffect calls).all (fun c => classify c != .validation && classify c != .cleanup) &&
-  (fromFirstEffect calls).contains "cls" && (fromFirstEffect calls).contains "run_info.init_store"
+  (fromFirstEffect calls).contains "run_info._dump_all" && (fromFirstEffect calls).contains "run_info.init_store"
 
 /-- the source names of the steps of `startSteps`, in the order the model performs them -/
 def modelSourceOrder : List String :=
   ["raise", "_validate_complete_inputs", "validate_consistent_axes", "_validate_storage_names", "_cleanup_run_folder",
-   "_compare_to_previous_run_info", "_check_inputs", "map_shapes", "cls", "run_info.init_store"]
+   "_compare_to_previous_run_info", "_check_inputs", "map_shapes", "run_info._dump_all", "run_info.init_store"]
 
 def isSubseq : List String → List String → Bool
   | [], _ => true
